@@ -1,9 +1,9 @@
 """C06 rule set (see DESIGN.md section 5)."""
-from rules.teddy import r06_1, r06_3, r06_4, r06_5, r06_6
+from rules.teddy import r06_1, r06_3, r06_4, r06_5, r06_6, r06_7
 from rules.prefilter import r10_5, r10_6
 
 LEVEL = 'other'
-RULES = [('R06.1', r06_1), ('R06.3', r06_3), ('R06.4', r06_4), ('R06.5', r06_5), ('R06.6', r06_6), ('R10.5', r10_5), ('R10.6', r10_6)]
+RULES = [('R06.1', r06_1), ('R06.3', r06_3), ('R06.4', r06_4), ('R06.5', r06_5), ('R06.6', r06_6), ('R06.7', r06_7), ('R10.5', r10_5), ('R10.6', r10_6)]
 EXPLANATION = """R06.1 template consistency of the eight generic searchers Slim<V,k> / Fat<V,k>, k = 1..4 (lane width L = V::BYTES resp. V::Half::BYTES):
 find starts at start + (k-1), loops while cur <= end - L, strides by L, and if cur < end re-runs once at end - L; find_one verifies from
 cur - (k-1) behind !candidate.is_zero(); candidate loads width L at cur, applies members_k, shifts result j in by k-1-j bytes from prev_j,
@@ -14,7 +14,9 @@ takes the lowest set bit, advances the base by bit / BUCKETS and selects bucket 
 for leftmost-first and stably by descending length for leftmost-longest; the pattern iterator follows that order; Teddy and Rabin-Karp
 buckets are filled from it; verify_bucket / Rabin-Karp return at the first verified pattern; the Teddy bucket key is
 low_nybbles(min(4, minimum_len)). R06.5 dispatch: shorter spans go to Rabin-Karp, SlimAVX2 uses the 128-bit searcher below the
-256-bit minimum. R06.6 Rabin-Karp hash window, power and rolling update. R10.5 / R10.6 span handling of the packed entry points."""
+256-bit minimum. R06.6 Rabin-Karp hash window, power and rolling update. R06.7 membership template: every byte
+shuffle is indexed by a nybble masked with 0x0F (low tables by chunk & 0x0F, high tables by (chunk >> 4) & 0x0F), each mask table used
+once per half. R10.5 / R10.6 span handling of the packed entry points."""
 NOT_DECIDED = """That the lane arithmetic (alignr / permute2x128 emulation of byte shifts across 128-bit lanes, interleave order in fat verification) produces the leftmost match for all positions and contents: SIMD semantics are outside MIR-level reasoning. cfg(target_arch = aarch64) code is not compiled here."""
 CLAIM = """Static decision of the structural template that all eight generic Teddy searchers must share (window arithmetic, carry vectors and their tail reset, verification base and geometry), of the ordering sources that make 'first verified' the semantically correct pattern, and of the dispatch between algorithms."""
 NOTE = """Trusted: rustc MIR construction, the fact extractor, the semantics of the SIMD intrinsics. One MIR body per const-generic impl block is analysed (8 x find/find_one/candidate)."""
